@@ -11,29 +11,40 @@ HEADER = ('From J1939 Require Import Base CodecGlue Model21.\nFrom J1939.gen Req
           'Definition obs (s : net) : list (list Z) :=\n'
           '  map fl (wab s) ++ [[-2]] ++ map fl (wba s) ++ [[-2]] ++ map ol (evb s) ++ [[-2]] ++\n'
           '  [[if quiet s then 1 else 0]].\n')
+HEADER22 = ('From J1939 Require Import Base CodecGlue Model21 Model22.\nFrom J1939.gen Require Import Codec Tp21Gen CaGen Tp22Gen.\n'
+            'From J1939P Require Import Flat MpgProofs Net21 Net22.\nOpen Scope Z_scope.\nSet Warnings "-abstract-large-number".\n'
+            'Definition fl (f : frame) : list Z := f_id f :: f_data f.\n'
+            'Definition ol (o : out) : list Z := match o with OCb cid prio pgn sa d => cid :: prio :: pgn :: sa :: d | _ => [-1] end.\n'
+            'Definition obs (s : net22) : list (list Z) :=\n'
+            '  map fl (wab2 s) ++ [[-2]] ++ map fl (wba2 s) ++ [[-2]] ++ map ol (evb2 s) ++ [[-2]] ++\n'
+            '  [[if quiet22 s then 1 else 0]].\n')
 WINDOWS = [1, 2, 3, 7, 8, 127, 254, 255]
 SIZES = [9, 14, 15, 16, 21, 22, 63, 64, 1784, 1785]
 
 
-def gen_case(rng, k, big):
+def gen_case(rng, k, big, only=None):
     n = rng.choice(SIZES) if rng.random() < 0.3 else rng.randint(9, 300 if big else 80)
     if not big and n > 400:
         n = rng.randint(9, 80)
     sa, da = rng.sample(range(0, 254), 2)
     pf = rng.choice([x for x in range(0, 240) if x not in (0xEA, 0xEB, 0xEC, 0xEE, 0x4D, 0x4E, 0x25)])
-    if rng.random() < 0.3:
+    fd = (rng.random() < 0.3) if only is None else (only == 'fd')      # the FD network model (Net22.v) against two real FD stacks
+    if fd:
+        n = rng.choice([61, 89, 105, 119, 120, 121, 180, 181]) if rng.random() < 0.4 else rng.randint(61, 1500 if big else 400)
+    if not fd and rng.random() < 0.3:
         da = 255                      # broadcast (BAM): theorem C01_bam_closed_loop_delivers
         if n > 400:
             n = rng.randint(9, 120)
     return dict(n=n, sa=sa, da=da, pf=pf, dp=rng.choice([0, 0, 1]), prio=rng.randint(0, 7),
                 wa=rng.choice(WINDOWS + [rng.randint(1, 255)]), wb=rng.choice(WINDOWS + [rng.randint(1, 255)]),
-                lat=rng.choice([1, 500]), seed=rng.getrandbits(30), fnone=rng.random() < 0.3)
+                lat=rng.choice([1, 500]), seed=rng.getrandbits(30), fnone=rng.random() < 0.3, fd=fd)
 
 
 def scenario(c):
     subs_b = [dict(cid=7, filt=(c['da'] if c['da'] != 255 else (c['sa'] + 1) % 254))] + ([dict(cid=9, filt=None)] if c['fnone'] else [])
-    stacks = [dict(dll='j1939-21', max_cmdt=c['wa'], subs=[dict(cid=1, filt=c['sa'])], cas=[]),
-              dict(dll='j1939-21', max_cmdt=c['wb'], subs=subs_b, cas=[])]
+    dll = 'j1939-22' if c.get('fd') else 'j1939-21'
+    stacks = [dict(dll=dll, max_cmdt=c['wa'], subs=[dict(cid=1, filt=c['sa'])], cas=[]),
+              dict(dll=dll, max_cmdt=c['wb'], subs=subs_b, cas=[])]
     npk = (c['n'] + 6) // 7
     script = [dict(t=1000, s=0, op='send', a=[c['dp'], c['pf'], c['da'], c['prio'], c['sa'], dict(seed=c['seed'], len=c['n'])])]
     return dict(stacks=stacks, lat=[c['lat']], jit=[1], script=script,
@@ -52,6 +63,14 @@ def observe_impl(sc, res):
 
 
 def model_text(c, data):
+    if c.get('fd'):
+        a = 'sub22 (init_node22 %d None None) 1 (FAddr %d)' % (c['wa'], c['sa'])
+        b = 'sub22 (init_node22 %d None None) 7 (FAddr %d)' % (c['wb'], c['da'])
+        if c['fnone']:
+            b = 'sub22 (%s) 9 FNone' % b
+        nseg = (c['n'] + 59) // 60
+        return ('obs (steps22 %d%%nat (net22_send (net22_0 (%s) (%s) 1000) %d %d %d %d %d %s))'
+                % (3 * nseg + 14, a, b, c['dp'], c['pf'], c['da'], c['prio'], c['sa'], C.zl(data)))
     a = 'subscribe (init_node %d None None) 1 (FAddr %d)' % (c['wa'], c['sa'])
     b = 'subscribe (init_node %d None None) 7 (FAddr %d)' % (c['wb'], c['da'] if c['da'] != 255 else (c['sa'] + 1) % 254)
     if c['fnone']:
@@ -62,17 +81,17 @@ def model_text(c, data):
             % (fuel, a, b, c['dp'], c['pf'], c['da'], c['prio'], c['sa'], C.zl(data)))
 
 
-def run(work, rng, n, big=False, tag='net'):
+def run(work, rng, n, big=False, tag='net', only=None):
     """returns (cases, mismatches[(case, model_obs, impl_obs)], errors, oracle_failures[(case, scenario, what)])"""
     cases, files = [], []
     for k in range(n):
-        c = gen_case(rng, k, big)
+        c = gen_case(rng, k, big, only)
         sc = scenario(c)
         res = scen.run(sc)
         data = list(scen.payload(sc['script'][0]['a'][5]))
         impl = observe_impl(sc, res)
         cases.append((c, sc, impl, data))
-        files.append(('%s_%d' % (tag, k), HEADER + 'Eval vm_compute in %s.\n' % model_text(c, data)))
+        files.append(('%s_%d' % (tag, k), (HEADER22 if c.get('fd') else HEADER) + 'Eval vm_compute in %s.\n' % model_text(c, data)))
     out = C.run_many_cases(work, files, timeout=300, par=12)
     mism, errors, bad = [], [], []
     for (name, _), (c, sc, impl, data) in zip(files, cases):
